@@ -276,10 +276,68 @@ func channelFacts() {
 	add("overrideChannelInnerDefaultContinues", "Bool", boolLean(ok), "common/channel/override_channel.go: (*overrideChannel).WriteLast", seen)
 }
 
+// shardFacts: facts about the coordinator's published assignments and cluster updates.
+func shardFacts() {
+	f := parse("coordinator/coordinator.go")
+	fn := funcDecl(f, "coordinator", "computeNewAssignments")
+	body := ""
+	if fn != nil {
+		body = squash(src(fn.Body))
+	}
+	// every shard whose status is not Deleting is published (with an empty leader if there is none)
+	ok := strings.Contains(body, "if a.Status != model.ShardStatusDeleting {") && !strings.Contains(body, "a.Status == model.ShardStatusSteadyState")
+	add("assignmentsPublishAllButDeleting", "Bool", boolLean(ok), "coordinator/coordinator.go: computeNewAssignments",
+		fmt.Sprintf("filter `a.Status != model.ShardStatusDeleting`: %v", ok))
+	u := parse("coordinator/utils/cluster_updates.go")
+	ac := funcDecl(u, "", "ApplyClusterChanges")
+	acb := ""
+	if ac != nil {
+		acb = squash(src(ac.Body))
+	}
+	skips := strings.Contains(acb, "ensembleSupplier(&nc, newStatus); err != nil {") && strings.Contains(acb, "continue }")
+	add("applyClusterChangesSkipsFailedShards", "Bool", boolLean(skips), "coordinator/utils/cluster_updates.go: ApplyClusterChanges",
+		"a failed ensembleSupplier call is followed by `continue` (the shard is skipped)")
+	s := parse("common/sharding/shards.go")
+	gs := funcDecl(s, "", "GenerateShards")
+	gsb := ""
+	if gs != nil {
+		gsb = squash(src(gs.Body))
+	}
+	w32 := strings.Contains(gsb, "bucketSize := (math.MaxUint32 / numShards) + 1") && strings.Contains(gsb, "lowerBound := i * bucketSize") &&
+		strings.Contains(gsb, "upperBound := lowerBound + bucketSize - 1") && strings.Contains(gsb, "if i == numShards-1 { upperBound = math.MaxUint32 }")
+	add("generateShardsShape32", "Bool", boolLean(w32), "common/sharding/shards.go: GenerateShards",
+		"bucketSize = MaxUint32/numShards + 1; lower = i*bucketSize; upper = lower+bucketSize-1, last = MaxUint32 (all in uint32)")
+}
+
+// notificationFacts: trimmer range and the leader's initial subscriber position.
+func notificationFacts() {
+	f := parse("server/kv/notifications_trimmer.go")
+	fn := funcDecl(f, "notificationsTrimmer", "trimNotifications")
+	body := ""
+	if fn != nil {
+		body = squash(src(fn.Body))
+	}
+	ok := strings.Contains(body, "wb.DeleteRange(notificationKey(first), notificationKey(trimOffset+1))") && strings.Count(body, "DeleteRange(") == 1
+	add("notificationsTrimUpperBoundIsTrimOffsetPlusOne", "Bool", boolLean(ok), "server/kv/notifications_trimmer.go: trimNotifications",
+		"the only DeleteRange is [notificationKey(first), notificationKey(trimOffset+1))")
+	l := parse("server/leader_controller.go")
+	gn := funcDecl(l, "leaderController", "GetNotifications")
+	gb := ""
+	if gn != nil {
+		gb = squash(src(gn.Body))
+	}
+	start := strings.Contains(gb, "commitOffset := qat.CommitOffset()") && strings.Contains(gb, "offsetExclusive = commitOffset") &&
+		!strings.Contains(gb, "HeadOffset()") && strings.Contains(gb, "lc.db.ReadNextNotifications(ctx, offset+1)")
+	add("notificationsStartAtCommitOffset", "Bool", boolLean(start), "server/leader_controller.go: GetNotifications",
+		"a subscriber without start offset is positioned at qat.CommitOffset(); the dispatch loop reads from offset+1")
+}
+
 // moreFacts collects the facts of the other properties (added per property).
 func moreFacts() {
 	walFacts()
 	codecFacts()
 	dbFacts()
 	channelFacts()
+	shardFacts()
+	notificationFacts()
 }
